@@ -19,6 +19,8 @@ type halfPipe struct {
 	segs     [][]byte
 	closed   bool // writer side closed: reader gets EOF after draining
 	rdClosed bool // reader side closed: writes fail
+	capBytes int  // > 0: a Write waits while this many bytes are buffered unread (a full socket buffer)
+	buffered int
 	deadline time.Time
 	timer    *time.Timer
 }
@@ -37,6 +39,13 @@ type bufConn struct {
 func bufPipe() (net.Conn, net.Conn) {
 	a, b := newHalf(), newHalf()
 	return &bufConn{rd: a, wr: b, name: "client"}, &bufConn{rd: b, wr: a, name: "server"}
+}
+
+// bufPipeCap: the direction server -> client holds at most capBytes unread bytes before a Write blocks
+func bufPipeCap(capBytes int) (net.Conn, net.Conn) {
+	cl, srv := bufPipe()
+	cl.(*bufConn).rd.capBytes = capBytes
+	return cl, srv
 }
 
 type timeoutErr struct{}
@@ -59,6 +68,8 @@ func (c *bufConn) Read(b []byte) (int, error) {
 				return 0, nil
 			}
 			n := copy(b, h.segs[0])
+			h.buffered -= n
+			h.cond.Broadcast()
 			if n < len(h.segs[0]) {
 				h.segs[0] = h.segs[0][n:]
 			} else {
@@ -80,14 +91,30 @@ func (c *bufConn) Write(b []byte) (int, error) {
 	h := c.wr
 	h.mu.Lock()
 	defer h.mu.Unlock()
-	if h.closed || h.rdClosed {
-		return 0, io.ErrClosedPipe
+	written := 0
+	for {
+		// a full buffer takes what fits and makes the writer wait with the rest, as a socket does
+		for h.capBytes > 0 && h.buffered >= h.capBytes && !h.closed && !h.rdClosed {
+			h.cond.Wait()
+		}
+		if h.closed || h.rdClosed {
+			return written, io.ErrClosedPipe
+		}
+		n := len(b)
+		if h.capBytes > 0 && n > h.capBytes-h.buffered {
+			n = h.capBytes - h.buffered
+		}
+		if n > 0 {
+			h.segs = append(h.segs, append([]byte{}, b[:n]...))
+			h.buffered += n
+			written += n
+			b = b[n:]
+		}
+		h.cond.Broadcast()
+		if len(b) == 0 {
+			return written, nil
+		}
 	}
-	if len(b) > 0 {
-		h.segs = append(h.segs, append([]byte{}, b...))
-	}
-	h.cond.Broadcast()
-	return len(b), nil
 }
 
 func (c *bufConn) Close() error {
